@@ -493,6 +493,20 @@ def l_pickle_dump(eng, n, st):
 LIBCALLS["pickle.dump"] = l_pickle_dump
 
 
+def l_re_split(eng, n, st):
+    pat = ast.unparse(n.args[0])
+    x = eng.ev(n.args[1], st)
+    if pat == "'>|<'" and isinstance(x.ty, StrT):
+        eng.assumptions_used.add("assumed: re.split('>|<', p) = [''] + the node names of the path p")
+        v = Val(eng.uf("split_names", [STR], LINE)(x.t), LINE)
+        st.assume(LINE.len(v.t) >= 1)
+        return v
+    raise Unsupported("re.split(%s, ...) at line %s has no contract" % (pat, n.lineno))
+
+
+LIBCALLS["re.split"] = l_re_split
+
+
 # ---- methods on values ---------------------------------------------------------------------------------
 def m_list_append(eng, recv, n, st):
     ty = recv.ty
